@@ -42,7 +42,11 @@ Proof.
       { unfold reload, LInv. simpl. rewrite L1, L2, Z.eqb_refl. simpl. repeat split; auto. }
       destruct (Z.to_nat (cfgw (reload (set_sigq s q)))); [apply linv_pc; auto|].
       unfold begin_spawn. apply linv_pc. destruct R as [R1 [R2 [R3 [R4 R5]]]]. unfold LInv. simpl. repeat split; auto.
-    + unfold to_loop. apply linv_pc. unfold LInv. simpl. repeat split; auto.
+    + assert (Q : LInv a l0 c0 (set_sigq s q)) by (unfold LInv; simpl; repeat split; auto).
+      assert (N : forall x, LInv a l0 c0 (set_num (set_sigq s q) x)) by (intros x; unfold LInv; simpl; repeat split; auto).
+      destruct (sg =? SIGTTIN); [apply linv_pc; apply N|].
+      destruct (sg =? SIGTTOU); [|unfold to_loop; apply linv_pc; exact Q].
+      destruct (num (set_sigq s q) <=? 1); [unfold to_loop; apply linv_pc; exact Q | apply linv_pc; apply N].
   - apply linv_pc; auto.
   - destruct (wlen s <? num s); apply linv_pc; auto.
   - destruct (num s - wlen s <=? 0); [apply linv_pc; auto|]. unfold begin_spawn. apply linv_pc. unfold LInv. simpl. repeat split; auto.
@@ -69,9 +73,11 @@ Proof.
   - apply IH; auto. unfold chld. apply reap_linv; auto.
   - apply IH; auto.
   - apply IH; auto.
-  - apply IH; auto. destruct (Z.of_nat (length (sigq s)) <? sig_queue_max); auto.
+  - apply IH; auto. unfold queue_sig. destruct (Z.of_nat (length (sigq s)) <? sig_queue_max); auto.
   - apply andb_true_iff in A. destruct A as [A1 A2]. apply Z.eqb_eq in A1. subst a0. apply IH; auto.
     destruct (0 <=? w); auto. destruct L as [L1 [L2 [L3 [L4 L5]]]]. unfold LInv. simpl. repeat split; auto.
+  - apply IH; auto. unfold queue_sig. destruct (Z.of_nat (length (sigq s)) <? sig_queue_max); auto.
+  - apply IH; auto. unfold queue_sig. destruct (Z.of_nat (length (sigq s)) <? sig_queue_max); auto.
 Qed.
 
 (* as long as the configured bind address does not change, LISTENERS are the very objects the master started with,
@@ -90,6 +96,9 @@ Theorem reload_keeps_listeners : forall n a ls, addr_ok a ls = true ->
   let s := run (init n a) ls in
   lsn s = [0] /\ closed s = [] /\ (forall w, In w (workers s) -> w_lsn w = [0]).
 Proof. intros n a ls. rewrite init_is_resized. apply reload_keeps_listeners_resized. Qed.
+
+Lemma told_only_no_resize : forall ls, told_only ls = true -> no_resize ls = true.
+Proof. induction ls as [|l t IH]; simpl; auto. destruct l; auto; discriminate. Qed.
 
 (* ---- the pool ---------------------------------------------------------------------------------------------------------- *)
 Lemma unretired_is_new : forall s, GInv s -> (cur s = PSigq \/ cur s = PSelect) ->
@@ -127,7 +136,7 @@ Proof.
       - specialize (U2 eq_refl). discriminate.
       - specialize (U1 eq_refl). discriminate. }
     rewrite E. unfold pc_inv in PC. fold (cnew s). destruct C as [C|C]; rewrite C in PC; tauto.
-  - apply count_after_reload.
+  - apply count_after_reload. apply told_only_no_resize. exact T.
 Qed.
 
 Theorem reload_replaces_pool : forall n a ls, told_only ls = true ->
@@ -136,7 +145,7 @@ Theorem reload_replaces_pool : forall n a ls, told_only ls = true ->
   (forall w, In w (workers s) -> retired s w = false -> hup_age s < w_age w /\ w_cfg w = cfgid s /\ w_lsn w = lsn s) /\
   Z.of_nat (length (filter (fun w => negb (retired s w)) (workers s))) = num s /\ num s = cfgw s.
 Proof.
-  intros n a ls T s C. pose proof (count_unresized n a ls) as CU. fold s in CU.
+  intros n a ls T s C. pose proof (count_unresized n a ls (told_only_no_resize ls T)) as CU. fold s in CU.
   assert (R : let s' := run (init_resized n (Z.of_nat n) a) ls in
               cur s' = PSigq \/ cur s' = PSelect -> _) by (apply (reload_replaces_pool_resized n (Z.of_nat n) a ls); [lia|exact T]).
   rewrite <- init_is_resized in R. fold s in R. destruct (R C) as [R1 [R2 _]]. auto.
